@@ -31,6 +31,10 @@ class SpinDetected(Exception):
   """The code under test kept calling a dead simulated socket without ever yielding (raised when the World ends)."""
 
 
+class ApiRaised(Exception):
+  """A call that is valid whatever the state of the client (closing it) raised; reported as a violation of the property being checked."""
+
+
 class SpinBreak(BaseException):
   """Raised inside the spinning greenlet to end it."""
 
